@@ -303,7 +303,7 @@ def run_check(pid, tier, seed, replay=None, keep=False):
         json.dump({"property": pid, "tier": tier, "seed": seed, "part": v.get("part"), "sig": v["sig"],
                    "detail": v["detail"], "count": v.get("count", 1), "replay": v.get("replay")}, open(rp, "w"), indent=1)
         print("VIOLATION property=%s replay=%s" % (pid, rp))
-        print("  sig: %s\n  detail: %s" % (v["sig"], str(v["detail"]).splitlines()[0][:300] if v["detail"] else ""))
+        print("  sig: %s\n  count: %d\n  detail: %s" % (v["sig"], v.get("count", 1), str(v["detail"]).splitlines()[0][:300] if v["detail"] else ""))
         status = 1
     if status == 0 and inconclusive:
         for i in inconclusive:
